@@ -148,7 +148,7 @@ func intConst(v constant.Value) (int64, bool) {
 // structField finds a field of a named struct type.
 func (w *World) Field(pkgKey, typ, field string) *types.Var {
 	p := w.Pkg(pkgKey)
-	tn, ok := p.Types.Scope().Lookup(typ).(*types.TypeName)
+	tn, ok := scopeLookup(p.Types.Scope(), typ).(*types.TypeName)
 	if !ok {
 		panic(undecided{"type " + pkgKey + "." + typ + " not found"})
 	}
@@ -157,7 +157,7 @@ func (w *World) Field(pkgKey, typ, field string) *types.Var {
 		panic(undecided{"type " + typ + " is not a struct"})
 	}
 	for i := 0; i < st.NumFields(); i++ {
-		if st.Field(i).Name() == field {
+		if nm(st.Field(i)) == field {
 			return st.Field(i)
 		}
 	}
@@ -200,16 +200,24 @@ func funcDecls(p *packages.Package) []*ast.FuncDecl {
 }
 
 func funcDeclName(fd *ast.FuncDecl) string {
+	name := fd.Name.Name
+	if on, ok := origDeclName[fd.Name.Pos()]; ok {
+		name = on // renamed since the rules were written: see anchors.go
+	}
+	return funcDeclNameWith(fd, name)
+}
+
+func funcDeclNameWith(fd *ast.FuncDecl, name string) string {
 	if fd.Recv != nil && len(fd.Recv.List) > 0 {
 		t := fd.Recv.List[0].Type
 		if s, ok := t.(*ast.StarExpr); ok {
 			t = s.X
 		}
 		if id, ok := t.(*ast.Ident); ok {
-			return id.Name + "." + fd.Name.Name
+			return id.Name + "." + name
 		}
 	}
-	return fd.Name.Name
+	return name
 }
 
 func isTestFile(w *World, pos token.Pos) bool {
